@@ -48,6 +48,10 @@ type Case struct {
 	SigProc string `json:"sig_proc,omitempty"`
 	SigMsg  string `json:"sig_msg,omitempty"`
 	Note    string `json:"note,omitempty"`
+	// Overlap: tokens verified by other goroutines WHILE this verification was parked inside its key resolution
+	// (between the construction of its signing input and its signature check); Shared: through the same verifier.
+	Overlap []string `json:"overlap,omitempty"`
+	Shared  bool     `json:"shared,omitempty"`
 	// Prefix: the tokens that went through the SAME verifier instance before this one (sequence cases).
 	Prefix []string `json:"prefix,omitempty"`
 	// World carries the public keys of the run (attached to failing cases only) so that a replay is self-contained.
@@ -73,6 +77,7 @@ const (
 	didA = "did:ex:a"
 	didM = "did:ex:m"
 	didB = "did:ex:b"
+	didP = "did:ex:p"
 )
 
 func newWorld() *world {
@@ -301,7 +306,11 @@ func (w *world) run(kind string, c *Case, withCoq bool, tr *hx.Trace) {
 		c = &d
 	}
 
-	o := w.execute(c)
+	w.record(kind, c, w.execute(c), withCoq, tr)
+}
+
+// record evaluates the direct oracle on an observed verdict and prints the model's case term.
+func (w *world) record(kind string, c *Case, o observed, withCoq bool, tr *hx.Trace) {
 	rec := &hx.Record{Kind: kind, Case: c, Observed: o, Oracle: "ok"}
 
 	parts := strings.Split(c.Tok, ".")
@@ -1204,6 +1213,9 @@ func main() {
 		w.sharedSingle = nil
 	}
 
+	// CONCURRENT use of verifiers
+	w.concurrent(rng.Fork(15000), thorough, tr)
+
 	// alg / key cross combinations
 	w.cross(rng.Fork(7), tr, []string{"jws", "jwt", "did"})
 
@@ -1261,6 +1273,20 @@ func (w *world) replay(kind string, c *Case, tr *hx.Trace) {
 			p.Tok, p.Prefix = t, nil
 			w.execute(&p)
 		}
+	}
+
+	if len(c.Overlap) > 0 {
+		var bs []*Case
+
+		for _, t := range c.Overlap {
+			b := *c
+			b.Tok, b.Overlap, b.SigKey, b.Sig0 = t, nil, "", ""
+			bs = append(bs, &b)
+		}
+
+		w.overlap(kind, c, bs, c.Shared, false, tr)
+
+		return
 	}
 
 	w.run(kind, c, c.SigKey == "", tr)
